@@ -60,3 +60,34 @@ fn start_contract<const L: usize>()
 #[kani::proof] #[kani::unwind(6)] fn k_tracker_sysevent_start_l4() { start_contract::<4>(); }
 //# id=K.tracker.sysevent.start.L5 props=C03,C12 strength=complete shape="parked list L=5, all contents" tier=thorough fns=SystemEventAccessTracker::start
 #[kani::proof] #[kani::unwind(7)] fn k_tracker_sysevent_start_l5() { start_contract::<5>(); }
+
+// ---------------------------------------------------------------------------------------------------------------
+// K.reader.sysevent: SystemEvent<T>::take (C03, C04): yields the causing event's own payload iff the tracker is reacting AND
+// the tracker's data entity carries a payload of THIS type that has not been taken yet; a second take in the same run,
+// a reader of another payload type, a run that is not reacting to a system event => Err.
+// Shape: loop-free; REACTING / payload kind enumerated (const), payload value symbolic.
+// ---------------------------------------------------------------------------------------------------------------
+fn sysevent_reader_contract<const REACTING: bool, const KIND: u8>() {
+    let d = Entity::verif_new(4, 1);
+    let v: u32 = kani::any();
+    let mut data32 = SystemEventData::new(v);
+    let mut data16 = SystemEventData::new(7u16);
+    let tracker = SystemEventAccessTracker{ currently_reacting: REACTING, data_entity: d, prepared: Vec::new() };
+    // KIND 0: the data entity carries a u32 payload; 1: it carries a u16 payload; 2: it carries nothing (already released)
+    let mut r32 = SystemEvent::<u32>{ tracker: Res::verif_new(&tracker), data: Query::verif_single(d, if KIND == 0 { Some(&mut data32) } else { None }) };
+    let mut r16 = SystemEvent::<u16>{ tracker: Res::verif_new(&tracker), data: Query::verif_single(d, if KIND == 1 { Some(&mut data16) } else { None }) };
+    let first = r32.take().ok();
+    assert!(first == (if REACTING && KIND == 0 { Some(v) } else { None }), "SystemEvent::take: the causing event's own payload iff reacting to a system event of this payload type");
+    assert!(r32.take().is_err(), "SystemEvent::take: a payload can be taken at most once");
+    let other = r16.take().ok();
+    assert!(other == (if REACTING && KIND == 1 { Some(7u16) } else { None }), "SystemEvent::take: a reader of another payload type reads nothing");
+    core::mem::forget(r32); core::mem::forget(r16);
+}
+//# id=K.reader.sysevent.reacting_u32 props=C03,C04 strength=complete shape="reacting; data entity carries a u32 payload (value symbolic)" tier=quick fns=SystemEvent::take,SystemEventData::take
+#[kani::proof] #[kani::unwind(4)] fn k_reader_sysevent_reacting_u32() { sysevent_reader_contract::<true, 0>(); }
+//# id=K.reader.sysevent.reacting_u16 props=C03,C04 strength=complete shape="reacting; data entity carries a u16 payload" tier=quick fns=SystemEvent::take
+#[kani::proof] #[kani::unwind(4)] fn k_reader_sysevent_reacting_u16() { sysevent_reader_contract::<true, 1>(); }
+//# id=K.reader.sysevent.reacting_gone props=C03,C04,C18 strength=complete shape="reacting; data entity gone" tier=quick fns=SystemEvent::take
+#[kani::proof] #[kani::unwind(4)] fn k_reader_sysevent_reacting_gone() { sysevent_reader_contract::<true, 2>(); }
+//# id=K.reader.sysevent.idle props=C03,C04 strength=complete shape="NOT reacting (manual run / other kind of run); data entity still carries a u32 payload" tier=quick fns=SystemEvent::take
+#[kani::proof] #[kani::unwind(4)] fn k_reader_sysevent_idle() { sysevent_reader_contract::<false, 0>(); }
